@@ -186,25 +186,30 @@ inline std::string str(bool b)
 {
     return b ? "true" : "false";
 }
-inline std::string str(float v)
+// float/double: exact text - "nan", "inf" / "-inf", otherwise C99 hexfloat
+// (the sign bit of zero and of infinity is visible, NaN-ness is explicit)
+inline std::string fp_text(double v)
 {
     if(v != v)
     {
         return "nan";
     }
+    if(v - v != 0)
+    {
+        return v < 0 ? "-inf" : "inf";
+    }
     char b[64];
-    std::snprintf(b, sizeof(b), "%g", static_cast<double>(v));
+    std::snprintf(b, sizeof(b), "%a", v);
     return b;
+}
+inline std::string str(float v)
+{
+    // every binary32 value is a binary64 value: the conversion is exact
+    return fp_text(static_cast<double>(v));
 }
 inline std::string str(double v)
 {
-    if(v != v)
-    {
-        return "nan";
-    }
-    char b[64];
-    std::snprintf(b, sizeof(b), "%g", v);
-    return b;
+    return fp_text(v);
 }
 inline std::string str(sbepp::field_presence p)
 {
